@@ -11,6 +11,7 @@ import Rare.Proofs.C08Guards
 import Rare.Proofs.C08Extra
 import Rare.Proofs.C08Loops
 import Rare.Proofs.C08Sites
+import Rare.Proofs.C08Size
 import Rare.Proofs.C08Format
 import Rare.Proofs.C08TimeW
 import Rare.Proofs.C18Cal
@@ -964,5 +965,75 @@ set_option maxRecDepth 4096 in
 theorem panic_sites_classified :
     Gen.C08.panicSites = siteTable.map (·.1) ∧ (siteTable.all fun p => p.2 != "") = true :=
   ⟨rfl, rfl⟩
+
+/-! ## Output sizes: what the caps bound, and the family they do not
+
+The known finding of this property is resource exhaustion by a growing value.  The theorems below bound what IS
+bounded - a single helper with a cap cannot blow up whatever its arguments are - and name the remaining family:
+a loop helper (`@for`, `@reduce`) whose argument EXPRESSION is evaluated on its own previous result and returns
+more than it was given. -/
+
+/-- **`{@range}` answers at most 21 MB**: whatever its (one, two or three) argument expressions evaluate to in
+    whatever context, the result is at most `21 * MAX_ITERATIONS` bytes (each of at most `MAX_ITERATIONS` elements
+    is an int64 in decimal - at most 20 bytes - and a separator). -/
+theorem range_output_bound (c : Ctx) (s0 s1 s2 : Stage) (out : Bytes)
+    (h : (Funcs.Range.rangeStage s0 s1 s2).run c = .ok out) :
+    out.length ≤ 21000000 ∧
+    Funcs.Range.kfArrayRange [s1] = ok (Funcs.Range.rangeStage (Stage.lit (ascii "0")) s1 (Stage.lit (ascii "1"))) ∧
+    Funcs.Range.kfArrayRange [s0, s1] = ok (Funcs.Range.rangeStage s0 s1 (Stage.lit (ascii "1"))) ∧
+    Funcs.Range.kfArrayRange [s0, s1, s2] = ok (Funcs.Range.rangeStage s0 s1 s2) :=
+  ⟨rangeStage_length c s0 s1 s2 out h, rfl, rfl, rfl⟩
+
+/-- **`{repeat}` answers at most 1 MiB**: for every pattern and every parsed count the closure's answer
+    (`repeat_eq_model`) is the marker or at most `maxRepeatBytes` bytes. -/
+theorem repeat_output_bound (char : Bytes) (count : Int) (hl : (char.length : Int) ≤ maxInt64) :
+    (repeatAns char count).length ≤ 1048576 := by
+  unfold repeatAns
+  split
+  · rw [errorValue_length]; omega
+  · rename_i hg
+    split
+    · simp
+    · have hg' : Gen.C08.repeatGuard count char.length = false := by simpa using hg
+      obtain ⟨h0, h1⟩ := (repeat_guard_exact count char.length (by omega) hl).mp hg'
+      rw [repeatB_length]
+      unfold Gen.C08.maxRepeatBytes at h1
+      have : ((char.length * count.toNat : Nat) : Int) = count * char.length := by
+        rw [Int.natCast_mul, Int.toNat_of_nonneg h0, Int.mul_comm]
+      omega
+
+/-- **`{@for}` is linear in its rounds unless the increment feeds on itself**: when the start value and every
+    value the increment expression returns (in the sub-context of any previous value and round number) are at
+    most `B` bytes, the result is at most `(B + 1) * (MAX_ITERATIONS + 1) + 5` bytes. -/
+theorem for_output_bound (c : Ctx) (a0 cond incr : Stage) (B : Nat) (out : Bytes)
+    (h0 : ∀ v, a0.run c = .ok v → v.length ≤ B)
+    (hB : ∀ v i o, (incr.withSub v i).run c = .ok o → o.length ≤ B)
+    (h : (Funcs.Range.forStage a0 cond incr).run c = .ok out) :
+    out.length ≤ (B + 1) * (Gen.maxIterations + 1) + 5 := by
+  unfold Funcs.Range.forStage at h
+  rw [run_bind'] at h
+  split at h
+  · rename_i v hv
+    have := forLoop_length c cond incr B hB _ v 0 {} out (h0 v hv) (by omega) h
+    simpa using this
+  · cases h
+
+/-- The increment `{0}{0}` (the previous value twice) and a condition that holds until round `n`. -/
+def dblIncr : Stage := .getMatch 0 fun a => .getMatch 0 fun b => .ret (a ++ b)
+def untilRound (n : Nat) : Stage := .getMatch 1 fun i => .ret (if i = itoa (n : Int) then [] else [49])
+
+/-- **The remaining family**: an increment whose value is not bounded by any `B` - it returns its own previous value
+    twice - makes `{@for}` answer `2^n - 1` bytes (and `n - 1` separators) after `n` rounds: 12 rounds from one
+    byte give 4106 bytes, and every further round doubles that (`{@for a "{lt {1} 40}" "{0}{0}"}` is the recorded
+    out-of-memory witness; `{@reduce … "{0}{0}"}` is the same family).  The hypothesis `hB` of `for_output_bound`
+    fails for this increment at every `B`. -/
+theorem for_doubling_counterexample :
+    (((Funcs.Range.forStage (.ret [97]) (untilRound 12) dblIncr).run ⟨fun _ => [], fun _ => []⟩).toOption.map List.length)
+      = some (2 ^ 12 - 1 + 11) ∧
+    (∀ B : Nat, ∃ v i o, (dblIncr.withSub v i).run ⟨fun _ => [], fun _ => []⟩ = .ok o ∧ o.length > B) := by
+  refine ⟨by decide +kernel, ?_⟩
+  intro B
+  refine ⟨List.replicate (B + 1) 97, [], List.replicate (B + 1) 97 ++ List.replicate (B + 1) 97, rfl, ?_⟩
+  simp only [List.length_append, List.length_replicate]; omega
 
 end Rare.C08
